@@ -109,12 +109,20 @@ type retryCase struct {
 	CancelOff   time.Duration
 	Dice        []float64
 	Breaker     int // 0 none, else failure threshold
+	LongFail    int // that many transient failures come before Script (long failure runs, large MaxAttempts)
 }
 
 var errTransientX = errors.New("temporary glitch")
 var errPermanentX = fmt.Errorf("denied: %w", leader.ErrPermissionDenied)
 
 func checkRetry(t *testing.T, c retryCase, hooked bool) (sig, msg string) {
+	if c.LongFail > 0 {
+		long := make([]int, c.LongFail, c.LongFail+len(c.Script))
+		for i := range long {
+			long[i] = 1
+		}
+		c.Script = append(long, c.Script...)
+	}
 	cfg := leader.RetryConfig{MaxAttempts: c.MaxAttempts, BackoffConfig: leader.BackoffConfig{InitialBackoff: 50 * time.Millisecond, MaxBackoff: 400 * time.Millisecond, BackoffMultiplier: 2, Jitter: 0.5}}
 	synctest.Test(t, func(t *testing.T) {
 		di := 0
@@ -175,7 +183,14 @@ func checkRetry(t *testing.T, c retryCase, hooked bool) (sig, msg string) {
 		_ = finished
 		after := len(calls)
 		time.Sleep(10 * time.Second)
-		desc := fmt.Sprintf("case=%+v calls at %v, returned %v", c, calls, err)
+		shown, shownCase := fmt.Sprint(calls), c
+		if len(calls) > 12 {
+			shown = fmt.Sprintf("%v ... %v (%d invocations)", calls[:6], calls[len(calls)-3:], len(calls))
+		}
+		if len(shownCase.Script) > 12 {
+			shownCase.Script = append(append([]int(nil), shownCase.Script[:3]...), shownCase.Script[len(shownCase.Script)-min(8, len(shownCase.Script)-3):]...)
+		}
+		desc := fmt.Sprintf("case=%+v (script: LongFail transient failures, then the tail shown) calls at %s, returned %v", shownCase, shown, err)
 		if len(calls) != after {
 			sig, msg = "C17 retry-invokes-after-return", desc
 			return
@@ -303,6 +318,11 @@ func checkRetry(t *testing.T, c retryCase, hooked bool) (sig, msg string) {
 func genRetryCase() *rapid.Generator[retryCase] {
 	return rapid.Custom(func(t *rapid.T) retryCase {
 		c := retryCase{MaxAttempts: rapid.IntRange(0, 6).Draw(t, "max")}
+		if rapid.IntRange(0, 4).Draw(t, "long") == 0 {
+			// long failure runs against large (or no) limits
+			c.MaxAttempts = rapid.OneOf(rapid.SampledFrom([]int{0, 31, 32, 33, 62, 63, 64, 65, 66, 100, 127, 128, 129, 250}), rapid.IntRange(7, 300)).Draw(t, "max_large")
+			c.LongFail = rapid.SampledFrom([]int{max(1, c.MaxAttempts-2), max(1, c.MaxAttempts-1), max(1, c.MaxAttempts), c.MaxAttempts + 1, c.MaxAttempts + 40, 300}).Draw(t, "long_fail")
+		}
 		n := rapid.IntRange(0, 8).Draw(t, "len")
 		for i := 0; i < n; i++ {
 			c.Script = append(c.Script, rapid.SampledFrom([]int{1, 1, 1, 0, 2}).Draw(t, "o"))
@@ -442,7 +462,7 @@ func TestC17(t *testing.T) {
 		hooked = false
 		r.Assume("jitter overlay inactive: dice unknown, only the jitter band is checked")
 	}
-	r.Rule = "(a) CalculateBackoff on generated configurations (initial 1ns-1h, cap 0-1y, multiplier 0.5-16, jitter 0-1, attempt 0-64 and huge values up to MaxInt, dice supplied through the jitter hook with extremes over-weighted) against an independent big-float computation of min(cap, initial*multiplier^n) and the exact formula with the known dice; (b) RetryWithBackoff under a virtual clock on generated scripts of outcomes (success / transient / permanent), MaxAttempts 0-6, cancellation never / before the first call / during invocation k / during wait k, optional circuit breaker, against a reference run (invocation count, result class, exact waits); (c) CircuitBreaker as a state machine (ok / fail operations that take 0 .. 2 x cooldown of virtual time / advance by cooldown-1ns, cooldown, cooldown+1ns) against a closed/open model; (d, simulator part) every acquisition round observed in simulated elections. Non-trivial = attempt>=1 with the cap reached or a dice extreme; scripts with >=2 invocations; breaker histories that open at least once; distinct by hash of the case."
+	r.Rule = "(a) CalculateBackoff on generated configurations (initial 1ns-1h, cap 0-1y, multiplier 0.5-16, jitter 0-1, attempt 0-64 and huge values up to MaxInt, dice supplied through the jitter hook with extremes over-weighted) against an independent big-float computation of min(cap, initial*multiplier^n) and the exact formula with the known dice; (b) RetryWithBackoff under a virtual clock on generated scripts of outcomes (success / transient / permanent), MaxAttempts 0-6 (a fifth of the cases: 7-300 with runs of MaxAttempts-2 .. MaxAttempts+40 or 300 consecutive transient failures), cancellation never / before the first call / during invocation k / during wait k, optional circuit breaker, against a reference run (invocation count, result class, exact waits); (c) CircuitBreaker as a state machine (ok / fail operations that take 0 .. 2 x cooldown of virtual time / advance by cooldown-1ns, cooldown, cooldown+1ns) against a closed/open model; (d, simulator part) every acquisition round observed in simulated elections. Non-trivial = attempt>=1 with the cap reached or a dice extreme; scripts with >=2 invocations; breaker histories that open at least once; distinct by hash of the case."
 	r.Assume("backoff domain: positive initial backoff, multiplier in [0.5,16], jitter in [0,1], caps up to one year (jittered value fits int64); tolerance 16ns + 1e-9 relative for float64 rounding")
 	var rp c17Replay
 	if is, err := report.LoadReplay(&rp); is {
